@@ -177,12 +177,12 @@ func loadEnvInternal(env map[string]string, prefix string, prv reflect.Value) er
 		switch {
 		case rt.Elem() == reflect.TypeOf(""):
 			if ev, ok := env[prefix]; ok {
+				if prv.IsNil() {
+					prv.Set(reflect.New(rt))
+				}
 				if ev == "" {
 					prv.Elem().Set(reflect.MakeSlice(prv.Elem().Type(), 0, 0))
 				} else {
-					if prv.IsNil() {
-						prv.Set(reflect.New(rt))
-					}
 					prv.Elem().Set(reflect.ValueOf(strings.Split(ev, ",")))
 				}
 			}
@@ -190,12 +190,12 @@ func loadEnvInternal(env map[string]string, prefix string, prv reflect.Value) er
 
 		case rt.Elem() == reflect.TypeOf(uint(0)):
 			if ev, ok := env[prefix]; ok {
+				if prv.IsNil() {
+					prv.Set(reflect.New(rt))
+				}
 				if ev == "" {
 					prv.Elem().Set(reflect.MakeSlice(prv.Elem().Type(), 0, 0))
 				} else {
-					if prv.IsNil() {
-						prv.Set(reflect.New(rt))
-					}
 
 					raw := strings.Split(ev, ",")
 					vals := make([]uint, len(raw))
@@ -215,12 +215,12 @@ func loadEnvInternal(env map[string]string, prefix string, prv reflect.Value) er
 
 		case rt.Elem() == reflect.TypeOf(float64(0)):
 			if ev, ok := env[prefix]; ok {
+				if prv.IsNil() {
+					prv.Set(reflect.New(rt))
+				}
 				if ev == "" {
 					prv.Elem().Set(reflect.MakeSlice(prv.Elem().Type(), 0, 0))
 				} else {
-					if prv.IsNil() {
-						prv.Set(reflect.New(rt))
-					}
 
 					raw := strings.Split(ev, ",")
 					vals := make([]float64, len(raw))
@@ -240,6 +240,9 @@ func loadEnvInternal(env map[string]string, prefix string, prv reflect.Value) er
 
 		case rt.Elem().Kind() == reflect.Struct:
 			if ev, ok := env[prefix]; ok && ev == "" { // special case: empty list
+				if prv.IsNil() {
+					prv.Set(reflect.New(rt))
+				}
 				prv.Elem().Set(reflect.MakeSlice(prv.Elem().Type(), 0, 0))
 			} else {
 				for i := 0; ; i++ {
